@@ -33,3 +33,9 @@ fn entity_reaction_readers_match_kind_and_type()
     kani::cover!(reacting && kind == 1 && !of_a, "reacting to a mutation of another component type");
     std::mem::forget(world);
 }
+
+/// introspection of the tracker for harnesses of sibling modules
+pub fn ent_prepared_len(t: &EntityReactionAccessTracker) -> usize { t.prepared.len() }
+pub fn ent_prepared_at(t: &EntityReactionAccessTracker, i: usize) -> (SystemCommand, Entity, EntityReactionType) { t.prepared[i] }
+pub fn ent_reacting(t: &EntityReactionAccessTracker) -> bool { t.currently_reacting }
+pub fn ent_current(t: &EntityReactionAccessTracker) -> (SystemCommand, Entity, EntityReactionType) { (t.system, t.reaction_source, t.reaction_type) }
